@@ -371,14 +371,27 @@ def run_core(scn, want=("c01", "c02", "c03", "c04", "c05", "c06")):
     cdc_x = [(i, sim.index(xp.wdata.ready), sim.index(xp.wdata.valid)) for i, (xp, pc) in enumerate(zip(tb.xports, core["ports"]))
              if pc.get("cd", "sys") != "sys" and pc.get("mode", "both") != "read"]
     if cdc_x:
+        # writes accepted by the crossbar from a crossed port whose data strobe has not happened yet ("in flight behind the crossing")
+        xw_now = [0] * len(tb.xports)
+        xw_max = [0] * len(tb.xports)
+        cdc_c = {i: (sim.index(tb.xports[i].cmd.valid), sim.index(tb.xports[i].cmd.ready), sim.index(tb.xports[i].cmd.we)) for i, _, _ in cdc_x}
+
         def blindmon(sim):
             S_ = sim.S
             for i, ir, iv in cdc_x:
-                if S_[ir] and not S_[iv]:
-                    blind[i] += 1
+                cv, cr, cw = cdc_c[i]
+                if S_[cv] and S_[cr] and S_[cw]:
+                    xw_now[i] += 1
+                    if xw_now[i] > xw_max[i]:
+                        xw_max[i] = xw_now[i]
+                if S_[ir]:
+                    if not S_[iv]:
+                        blind[i] += 1
+                    if xw_now[i]:
+                        xw_now[i] -= 1
         sim.add_agent("sys", blindmon)
         upc = [bool(pc.get("data_width")) and pc["data_width"] < nb * 8 for pc in core["ports"]]
-        viol.extra = lambda: {"blind_strobes": list(blind), "upconverted": upc[0]}
+        viol.extra = lambda: {"blind_strobes": list(blind), "upconverted": upc[0], "xbar_writes_in_flight_max": list(xw_max)}
 
     # monitors: cmd wait time (first offer -> accept), abstract states
     fs = tb.fsm_state_indices()
